@@ -33,9 +33,12 @@ struct Naming {
     labels: [&'static str; 4],
 }
 
+const LONG_A: &str = "sample_aaaaaaaaaaaaaaaaaaaaaaaaaaaaaaaaaaaaaaaaaaaaaaaaaaaaaaaaaaaaaaaaaaaaaaaaaaaaaaaaaaaaaaaaaaaaaaaaaaaaaaaaaaaaaaaaaaaaaaaaaaaaaaaaaaaaaaaaaaaaaaaaaaaaaaaaaaaaaaaaaaaaaaaaaaaaaaaaaaaaaaaaaaaaaaaaaaaaaaaaaaaaaaaaaaaaaaaaaaaaaaaaaaaaaaaaaaaaaaaaaaaaaaaaaaaaaaaaaaaaaaaaaaaaaaaaaaaaaaaaaaaaaaaaaaaaaaaa_end";
+const LONG_B: &str = "sample_aaaaaaaaaaaaaaaaaaaaaaaaaaaaaaaaaaaaaaaaaaaaaaaaaaaaaaaaaaaaaaaaaaaaaaaaaaaaaaaaaaaaaaaaaaaaaaaaaaaaaaaaaaaaaaaaaaaaaaaaaaaaaaaaaaaaaaaaaaaaaaaaaaaaaaaaaaaaaaaaaaaaaaaaaaaaaaaaaaaaaaaaaaaaaaaaaaaaaaaaaaaaaaaaaaaaaaaaaaaaaaaaaaaaaaaaaaaaaaaaaaaaaaaaaaaaaaaaaaaaaaaaaaaaaaaaaaaaaaaaaaaaaaaaaaaaaaaaa_enD";
+const LONG_C: &str = "bbbbbbbbbbbbbbbbbbbbbbbbbbbbbbbbbbbbbbbbbbbbbbbbbbbbbbbbbbbbbbbbbbbbbbbbbbbbbbbbbbbbbbbbbbbbbbbbbbbbbbbbbbbbbbbbbbbbbbbbbbbbbbbbbbbbbbbbbbbbbbbbbbbbbbbbbbbbbbbbbbbbbbbbbbbbbbbbbbbbbbbbbbbbbbbbbbbbbbbbbbbbbbbbbbbbbbbbbbbbbbbbbbbbbbbbbbbbbbbbbbbbbbbbbbbbbbbbbbbbbbbbbbbbbbbbbbb";
 const PLAIN: Naming = Naming { id: "plain", names: ["s0", "s1", "s2", "s3", "s4"], labels: LABELS };
 
-const NAMINGS: [Naming; 8] = [
+const NAMINGS: [Naming; 9] = [
     PLAIN,
     // names whose lexicographic, numeric and list orders all differ
     Naming { id: "numeric-names", names: ["s10", "s9", "s100", "s1", "s2"], labels: ["", "north", "South", "east"] },
@@ -49,6 +52,8 @@ const NAMINGS: [Naming; 8] = [
     Naming { id: "names-with-blanks", names: ["NA 1", "NA 2", "NA 10", "NA", "x.y-z"], labels: ["", "A", "B", "C"] },
     // labels that contain '=' themselves (only the first '=' of an entry separates sample and label)
     Naming { id: "labels-with-equals", names: ["s0", "s1", "s2", "s3", "s4"], labels: ["", "K=2.1", "K=2.2", "K"] },
+    // long names and labels (300 and 5 000 bytes)
+    Naming { id: "long-names", names: [LONG_A, LONG_B, "s2", LONG_C, "s4"], labels: ["", LONG_B, LONG_C, "x"] },
     // non-ASCII names and labels
     Naming { id: "unicode", names: ["sämple", "样本", "sé", "s_3", "s-4"], labels: ["", "Nord", "Süd", "东"] },
 ];
@@ -535,6 +540,71 @@ pub fn run(tier: Tier) -> i32 {
         exhaustive: true,
         extra: vec![],
     });
+    // scale: thousands of listed samples (a samples file beyond 64 KiB) and more than 65 536 of them
+    {
+        let mut n_eval = 0u64;
+        for (n_samples, n_b) in [(4200usize, 30usize), (if tier.thorough() { 70_000 } else { 65_546 }, 10)] {
+            // genotype of sample j at record r; population B = the last n_b samples
+            let gt = |j: usize, r: usize| -> usize { (j * (r + 3) + r * r + j / 7) % 3 };
+            let mut cs = CallSet::new(n_samples);
+            cs.samples = (0..n_samples).map(|j| format!("sample{j:07}xyz")).collect();
+            let n_rec = 4usize;
+            for r in 0..n_rec {
+                let gts: Vec<&str> = (0..n_samples).map(|j| ["0/0", "0|1", "1/1"][gt(j, r)]).collect();
+                cs.push_gts(&gts);
+            }
+            let vcf = to_vcf(&cs).0;
+            let n_a = n_samples - n_b;
+            let mut expect = RefArray::zeros(&[2 * n_a + 1, 2 * n_b + 1]);
+            for r in 0..n_rec {
+                let a: usize = (0..n_a).map(|j| gt(j, r)).sum();
+                let b: usize = (n_a..n_samples).map(|j| gt(j, r)).sum();
+                expect.add(&[a, b], 1.0);
+            }
+            let line = |j: usize| format!("{}\t{}\n", cs.samples[j], if j < n_a { "A" } else { "B" });
+            // (i) column order; (ii) the first A sample first, then everything else reversed (same first-appearance order of labels)
+            let in_order: String = (0..n_samples).map(line).collect();
+            let reordered: String = std::iter::once(0).chain((1..n_samples).rev()).map(line).collect();
+            let mut outs = Vec::new();
+            for (what, text) in [("column order", &in_order), ("reordered", &reordered)] {
+                n_eval += 1;
+                let path = scratch.file(".samples", text.as_bytes());
+                let o = run_sfs(&["create", "--samples-file", path.to_str().unwrap()], Stdin::Bytes(&vcf), &scratch);
+                let _ = std::fs::remove_file(path);
+                let sparse = |r: &RefArray| -> Vec<(usize, f64)> { r.data.iter().enumerate().filter(|(_, v)| **v != 0.0).map(|(i, v)| (i, *v)).collect() };
+                match parse_out(&o) {
+                    Ok(g) if g == expect => {}
+                    other => rep.violation(
+                        format!("C09|cli|many-samples-wrong|{}", if n_samples > 65_535 { ">65535" } else { "thousands" }),
+                        format!("create --samples-file with {n_samples} listed samples ({} bytes, {what}): {:?}; expected shape {:?} with non-zero cells {:?}", text.len(), other.map(|g| (g.shape.clone(), sparse(&g))), expect.shape, sparse(&expect)),
+                        J::obj([("kind", J::s("c09-scale")), ("samples", J::u(n_samples)), ("order", J::s(what))]),
+                    ),
+                }
+                outs.push(o.stdout);
+            }
+            if n_samples < 6000 {
+                // the same list as --samples (one argument of ~90 KiB, below the 128 KiB limit per argument)
+                n_eval += 1;
+                let arg: String = (0..n_samples).map(|j| format!("{}={}", cs.samples[j], if j < n_a { "A" } else { "B" })).collect::<Vec<_>>().join(",");
+                let o = run_sfs(&["create", "--samples", &arg], Stdin::Bytes(&vcf), &scratch);
+                if o.stdout != outs[0] {
+                    rep.violation(
+                        "C09|cli|samples-file-differs|thousands-of-samples",
+                        format!("{n_samples} samples: --samples gives {} bytes of output ({}), the same list as --samples-file {} bytes", o.stdout.len(), o.status_str(), outs[0].len()),
+                        J::obj([("kind", J::s("c09-scale")), ("samples", J::u(n_samples)), ("order", J::s("--samples vs --samples-file"))]),
+                    );
+                }
+            }
+        }
+        rep.part(Part {
+            name: "cli: thousands and tens of thousands of listed samples".into(),
+            evaluations: n_eval,
+            nontrivial: n_eval,
+            note: "4 200 listed samples (samples file of ~90 KiB; also as one --samples argument) and 65 546 (thorough 70 000) listed samples in two populations, as --samples-file in column order and reordered: shape and every cell against the reference".into(),
+            exhaustive: true,
+            extra: vec![],
+        });
+    }
     // unlisted columns with non-diploid calls (e.g. haploid chrX calls of samples that are not listed)
     {
         let sub: Vec<&Vec<Entry>> = lists3.iter().filter(|l| l.len() <= 2).collect();
@@ -586,7 +656,7 @@ pub fn run(tier: Tier) -> i32 {
         name: "cli: spellings of sample names and labels".into(),
         evaluations: 2 * nj.len() as u64,
         nontrivial: 2 * nj.len() as u64,
-        note: format!("{} naming schemes (numeric names in non-lexicographic order, labels with blanks sharing a first word, prefix / case-differing labels, numeric labels, names with blanks, labels containing '=', non-ASCII) x {} lists of 3 samples as --samples and --samples-file; the result must be that of the plain spelling", NAMINGS.len() - 1, if tier.thorough() { "all".to_string() } else { "every third of the".to_string() }),
+        note: format!("{} naming schemes (numeric names in non-lexicographic order, labels with blanks sharing a first word, prefix / case-differing labels, numeric labels, names with blanks, labels containing '=', names and labels of ~300 bytes that differ only in their last byte, non-ASCII) x {} lists of 3 samples as --samples and --samples-file; the result must be that of the plain spelling", NAMINGS.len() - 1, if tier.thorough() { "all".to_string() } else { "every third of the".to_string() }),
         exhaustive: true,
         extra: vec![("namings".into(), J::strs(&NAMINGS.iter().map(|n| n.id).collect::<Vec<_>>()))],
     });
